@@ -1,0 +1,157 @@
+// Copyright 2020-2025 Buf Technologies, Inc.
+//
+// Licensed under the Apache License, Version 2.0 (the "License");
+// you may not use this file except in compliance with the License.
+// You may obtain a copy of the License at
+//
+//      http://www.apache.org/licenses/LICENSE-2.0
+//
+// Unless required by applicable law or agreed to in writing, software
+// distributed under the License is distributed on an "AS IS" BASIS,
+// WITHOUT WARRANTIES OR CONDITIONS OF ANY KIND, either express or implied.
+// See the License for the specific language governing permissions and
+// limitations under the License.
+
+//go:build verif
+
+package bufctl
+
+// Contracts for the gocv verifier (contract author ca-B2). Comment-only.
+// Spec functions, ghost variables (b2_*) and trusted sinks: /verif/specs/C11_formats.spec.
+//
+// C11 "a built image written in any supported encoding ... and read back equals the original": the image is written
+// with the encoder OF THE REF'S ENCODING (holding the image's resolver, so custom options print by name) and read with
+// the decoder of the same encoding: binpb in one pass; json / txtpb / yaml in two passes over the same bytes, the first
+// without a resolver into a scratch message, the second with the resolver built from the scratch message's files.
+// Encodings are numbered as in b2_encOf / b2_marshalerEnc / b2_unmarshalerEnc: 1 binpb, 2 json, 3 txtpb, 4 yaml.
+//
+// ---- the encoder for a message ref ----
+//@ func newJSONMarshaler(resolver, messageRef) (r)
+//@   property C11
+//@   modifies heap, ghost.fail, ghost.wfail, ghost.b2_codecResolver
+//@   ensures json-encoder: r != nil && b2_marshalerEnc(r) == 2
+//@   ensures given-resolver: resolver != nil ==> ghost.b2_codecResolver[r] == resolver
+//@   ensures others-kept: forall x ref :: x != r ==> ghost.b2_codecResolver[x] == old(ghost.b2_codecResolver)[x]
+//@ func newYAMLMarshaler(resolver, messageRef) (r)
+//@   property C11
+//@   modifies heap, ghost.fail, ghost.wfail, ghost.b2_codecResolver
+//@   ensures yaml-encoder: r != nil && b2_marshalerEnc(r) == 4
+//@   ensures given-resolver: resolver != nil ==> ghost.b2_codecResolver[r] == resolver
+//@   ensures others-kept: forall x ref :: x != r ==> ghost.b2_codecResolver[x] == old(ghost.b2_codecResolver)[x]
+//
+//@ func newProtoencodingMarshaler(image, messageRef) (r, err)
+//@   property C11
+//@   modifies heap, ghost.fail, ghost.wfail, ghost.b2_codecResolver
+//@   ensures binpb: messageRef.MessageEncoding() == buffetch.MessageEncodingBinpb ==> err == nil && r != nil && b2_marshalerEnc(r) == 1
+//@   ensures json: messageRef.MessageEncoding() == buffetch.MessageEncodingJSON ==> err == nil && r != nil && b2_marshalerEnc(r) == 2
+//@   ensures txtpb: messageRef.MessageEncoding() == buffetch.MessageEncodingTxtpb ==> err == nil && r != nil && b2_marshalerEnc(r) == 3
+//@   ensures yaml: messageRef.MessageEncoding() == buffetch.MessageEncodingYAML ==> err == nil && r != nil && b2_marshalerEnc(r) == 4
+//@   ensures unknown-encoding-is-an-error: messageRef.MessageEncoding() != buffetch.MessageEncodingBinpb && messageRef.MessageEncoding() != buffetch.MessageEncodingJSON && messageRef.MessageEncoding() != buffetch.MessageEncodingTxtpb && messageRef.MessageEncoding() != buffetch.MessageEncodingYAML ==> err != nil && r == nil
+//@   ensures json-yaml-print-with-the-images-resolver: err == nil && (b2_marshalerEnc(r) == 2 || b2_marshalerEnc(r) == 4) && image.Resolver() != nil ==> ghost.b2_codecResolver[r] == image.Resolver()
+//@   ensures txtpb-prints-with-the-images-resolver: err == nil && b2_marshalerEnc(r) == 3 && image.Resolver() != nil ==> cast(*protoencoding.txtpbMarshaler, r).resolver == image.Resolver()
+//@   canary ensures err != nil
+//@   canary ensures err == nil
+//
+// ---- reading an image file ----
+// bootstrapResolver: ONE pass of the given (resolver-less) decoder over the bytes into a scratch message (not the
+// caller's); a read failure is returned (no resolver); on success the resolver is built from the scratch message's files
+// (protoencoding.NewResolver returns no resolver and no error for an image without files; such an image is rejected later).
+//@ func bootstrapResolver(unmarshaler, data) (r, err)
+//@   property C11
+//@   modifies heap, ghost.s_unknown, ghost.b2_unmN, ghost.b2_unmRecv, ghost.b2_unmMsg, ghost.b2_unmData, ghost.b2_unmFailed, ghost.b2_unmResolver, ghost.b2_resolverFiles
+//@   ensures one-pass: ghost.b2_unmN == old(ghost.b2_unmN) + 1 && ghost.b2_unmRecv[old(ghost.b2_unmN)] == unmarshaler && ghost.b2_unmData[old(ghost.b2_unmN)] == data
+//@   ensures into-a-scratch-message: ghost.b2_unmMsg[old(ghost.b2_unmN)] != nil && (forall x ref :: old(allocated(x)) ==> ghost.b2_unmMsg[old(ghost.b2_unmN)] != x)
+//@   ensures with-the-decoders-own-resolver: typeOf(unmarshaler) == typeId(*protoencoding.jsonUnmarshaler) ==> ghost.b2_unmResolver[old(ghost.b2_unmN)] == old(cast(*protoencoding.jsonUnmarshaler, unmarshaler).resolver)
+//@   ensures with-the-decoders-own-resolver-txtpb: typeOf(unmarshaler) == typeId(*protoencoding.txtpbUnmarshaler) ==> ghost.b2_unmResolver[old(ghost.b2_unmN)] == old(cast(*protoencoding.txtpbUnmarshaler, unmarshaler).resolver)
+//@   ensures with-the-decoders-own-resolver-yaml: typeOf(unmarshaler) == typeId(*protoencoding.yamlUnmarshaler) ==> ghost.b2_unmResolver[old(ghost.b2_unmN)] == old(cast(*protoencoding.yamlUnmarshaler, unmarshaler).resolver)
+//@   ensures earlier-passes-kept: forall k int :: k != old(ghost.b2_unmN) ==> ghost.b2_unmRecv[k] == old(ghost.b2_unmRecv)[k] && ghost.b2_unmMsg[k] == old(ghost.b2_unmMsg)[k] && ghost.b2_unmData[k] == old(ghost.b2_unmData)[k] && ghost.b2_unmResolver[k] == old(ghost.b2_unmResolver)[k]
+//@   ensures read-failure-returned: ghost.b2_unmFailed && !old(ghost.b2_unmFailed) ==> err != nil && r == nil
+//@   ensures failure-has-no-resolver: err != nil ==> r == nil
+//@   ensures resolver-of-the-files-read: err == nil && len(cast(*imagev1.Image, ghost.b2_unmMsg[old(ghost.b2_unmN)]).GetFile()) > 0 ==> r != nil && ghost.b2_resolverFiles[r] == cast(*imagev1.Image, ghost.b2_unmMsg[old(ghost.b2_unmN)]).GetFile()
+//@   ensures no-files-no-resolver: err == nil && len(cast(*imagev1.Image, ghost.b2_unmMsg[old(ghost.b2_unmN)]).GetFile()) == 0 ==> r == nil
+//@   canary ensures err != nil
+//@   canary ensures err == nil
+//
+// getImageForMessageRef. With N = the number of decoder passes made before the call:
+//  * binpb: exactly one pass, with the binpb decoder, into the image message;
+//  * json / txtpb / yaml: exactly two passes with the decoder OF THAT ENCODING over the same bytes: pass N without a
+//    resolver (EmptyResolver) into a scratch message, pass N+1 with the resolver bootstrapped from the scratch message
+//    (ghost.b2_bootResolver) into the image message; the image is then NOT re-parsed a third time (WithNoReparse) while
+//    a binpb image is re-parsed by NewImageForProto (no option);
+//  * any decoder failure, and an unknown encoding, is returned (never an empty image);
+//  * --exclude-source-info: source info is cleared for every file exactly when asked, before the image is built.
+//@ func (c *controller) getImageForMessageRef(ctx, messageRef, functionOptions) (r, retErr)
+//@   property C11
+//@   modifies heap, ghost.fail, ghost.wfail, ghost.s_unknown, ghost.b2_unmN, ghost.b2_unmRecv, ghost.b2_unmMsg, ghost.b2_unmData, ghost.b2_unmFailed, ghost.b2_unmResolver, ghost.b2_resolverFiles, ghost.b2_codecResolver, ghost.b2_cleared, ghost.b2_steps, ghost.b2_bootResolver, ghost.b2_reparsedWith, ghost.b2_unusedRecomputed
+//@   ghost after "resolver, err := bootstrapResolver(protoencoding.NewJSONUnmarshaler(nil), data)" b2_bootResolver := resolver
+//@   ghost after "resolver, err := bootstrapResolver(protoencoding.NewTxtpbUnmarshaler(nil), data)" b2_bootResolver := resolver
+//@   ghost after "resolver, err := bootstrapResolver(protoencoding.NewYAMLUnmarshaler(nil), data)" b2_bootResolver := resolver
+//@   requires no-failure-pending: !ghost.b2_unmFailed
+//@   ensures binpb-one-pass: retErr == nil && messageRef.MessageEncoding() == buffetch.MessageEncodingBinpb ==> ghost.b2_unmN == old(ghost.b2_unmN) + 1 && b2_unmarshalerEnc(ghost.b2_unmRecv[old(ghost.b2_unmN)]) == 1
+//@   ensures json-two-passes: retErr == nil && messageRef.MessageEncoding() == buffetch.MessageEncodingJSON ==> ghost.b2_unmN == old(ghost.b2_unmN) + 2 && b2_unmarshalerEnc(ghost.b2_unmRecv[old(ghost.b2_unmN)]) == 2 && b2_unmarshalerEnc(ghost.b2_unmRecv[old(ghost.b2_unmN) + 1]) == 2
+//@   ensures txtpb-two-passes: retErr == nil && messageRef.MessageEncoding() == buffetch.MessageEncodingTxtpb ==> ghost.b2_unmN == old(ghost.b2_unmN) + 2 && b2_unmarshalerEnc(ghost.b2_unmRecv[old(ghost.b2_unmN)]) == 3 && b2_unmarshalerEnc(ghost.b2_unmRecv[old(ghost.b2_unmN) + 1]) == 3
+//@   ensures yaml-two-passes: retErr == nil && messageRef.MessageEncoding() == buffetch.MessageEncodingYAML ==> ghost.b2_unmN == old(ghost.b2_unmN) + 2 && b2_unmarshalerEnc(ghost.b2_unmRecv[old(ghost.b2_unmN)]) == 4 && b2_unmarshalerEnc(ghost.b2_unmRecv[old(ghost.b2_unmN) + 1]) == 4
+//@   ensures first-pass-has-no-resolver: retErr == nil && messageRef.MessageEncoding() != buffetch.MessageEncodingBinpb ==> ghost.b2_unmResolver[old(ghost.b2_unmN)] == protoencoding.EmptyResolver
+//@   ensures second-pass-has-the-bootstrapped-resolver: retErr == nil && messageRef.MessageEncoding() != buffetch.MessageEncodingBinpb && ghost.b2_bootResolver != nil ==> ghost.b2_unmResolver[old(ghost.b2_unmN) + 1] == ghost.b2_bootResolver
+//@   ensures bootstrapped-from-the-first-pass: retErr == nil && messageRef.MessageEncoding() != buffetch.MessageEncodingBinpb && ghost.b2_bootResolver != nil ==> ghost.b2_resolverFiles[ghost.b2_bootResolver] == cast(*imagev1.Image, ghost.b2_unmMsg[old(ghost.b2_unmN)]).GetFile()
+//@   ensures no-resolver-only-for-an-image-without-files: retErr == nil && messageRef.MessageEncoding() != buffetch.MessageEncodingBinpb && ghost.b2_bootResolver == nil ==> len(cast(*imagev1.Image, ghost.b2_unmMsg[old(ghost.b2_unmN)]).GetFile()) == 0 && ghost.b2_unmResolver[old(ghost.b2_unmN) + 1] == protoencoding.EmptyResolver
+//@   ensures both-passes-read-the-same-bytes: retErr == nil && messageRef.MessageEncoding() != buffetch.MessageEncodingBinpb ==> ghost.b2_unmData[old(ghost.b2_unmN)] == ghost.b2_unmData[old(ghost.b2_unmN) + 1]
+//@   ensures scratch-message-is-not-the-image-message: retErr == nil && messageRef.MessageEncoding() != buffetch.MessageEncodingBinpb ==> ghost.b2_unmMsg[old(ghost.b2_unmN)] != ghost.b2_unmMsg[old(ghost.b2_unmN) + 1]
+//@   ensures decoder-failure-returned: ghost.b2_unmFailed ==> retErr != nil && r == nil
+//@   ensures unknown-encoding-is-an-error: messageRef.MessageEncoding() != buffetch.MessageEncodingBinpb && messageRef.MessageEncoding() != buffetch.MessageEncodingJSON && messageRef.MessageEncoding() != buffetch.MessageEncodingTxtpb && messageRef.MessageEncoding() != buffetch.MessageEncodingYAML ==> retErr != nil && r == nil
+//@   assert before "image, err := bufimage.NewImageForProto(protoImage, imageFromProtoOptions...)" source-info-cleared-when-asked: functionOptions.imageExcludeSourceInfo ==> (forall i int :: 0 <= i && i < len(protoImage.GetFile()) ==> protoImage.GetFile()[i] in ghost.b2_cleared)
+//@   assert before "image, err := bufimage.NewImageForProto(protoImage, imageFromProtoOptions...)" source-info-kept-unless-asked: !functionOptions.imageExcludeSourceInfo ==> ghost.b2_cleared == old(ghost.b2_cleared)
+//@   assert before "image, err := bufimage.NewImageForProto(protoImage, imageFromProtoOptions...)" binpb-is-reparsed-text-is-not: (messageRef.MessageEncoding() == buffetch.MessageEncodingBinpb ==> len(imageFromProtoOptions) == 0) && (messageRef.MessageEncoding() != buffetch.MessageEncodingBinpb ==> len(imageFromProtoOptions) == 1 && imageFromProtoOptions[0] == bufimage.WithNoReparse())
+//@   assert before "image, err := bufimage.NewImageForProto(protoImage, imageFromProtoOptions...)" image-built-from-the-last-pass: ghost.b2_unmMsg[ghost.b2_unmN - 1] == protoImage
+//@   loop 0 invariant cleared-so-far: forall i int :: 0 <= i && i < $i ==> protoImage.GetFile()[i] in ghost.b2_cleared
+//
+// ---- the image transformations, applied exactly when asked and in the documented order ----
+// filterImage: --exclude-imports first, then the type filter (--type / --exclude-type), then (only for an image that did
+// not come from an already targeted workspace) --path / --exclude-path with NORMALIZED paths. ghost.b2_steps records the
+// steps taken as decimal digits (1 imports dropped, 2 types, 3 paths).
+//@ func filterImage(image, functionOptions, imageCameFromAWorkspace) (r, err)
+//@   property C11
+//@   modifies heap, ghost.fail, ghost.wfail, ghost.b2_steps
+//@   ghost before "newImage := image" b2_steps := 0
+//@   ghost after "newImage = bufimage.ImageWithoutImports(newImage)" b2_steps := ghost.b2_steps * 10 + 1
+//@   ghost after "newImage, err = bufimageutil.FilterImage(" b2_steps := ghost.b2_steps * 10 + 2
+//@   ghost after "newImage, err = bufimage.ImageWithOnlyPathsAllowNotExist(" b2_steps := ghost.b2_steps * 10 + 3
+//@   ensures nothing-asked-nothing-done: !old(functionOptions.imageExcludeImports) && len(old(functionOptions.imageIncludeTypes)) == 0 && len(old(functionOptions.imageExcludeTypes)) == 0 && (imageCameFromAWorkspace || (len(old(functionOptions.targetPaths)) == 0 && len(old(functionOptions.targetExcludePaths)) == 0)) ==> err == nil && r == image && ghost.b2_steps == 0
+//@   ensures steps-as-asked-in-order: err == nil && len(old(functionOptions.imageIncludeTypes)) == 0 && len(old(functionOptions.imageExcludeTypes)) == 0 ==> ghost.b2_steps == b2_expectedSteps(old(functionOptions.imageExcludeImports), false, !imageCameFromAWorkspace && (len(old(functionOptions.targetPaths)) > 0 || len(old(functionOptions.targetExcludePaths)) > 0))
+// (with a type filter the engine loses the option values across bufimageutil.FilterImage, which `modifies heap`: the
+// path step after it is pinned by the assert paths-only-when-asked instead)
+//@   ensures steps-with-type-filter: err == nil && (len(old(functionOptions.imageIncludeTypes)) > 0 || len(old(functionOptions.imageExcludeTypes)) > 0) ==> ghost.b2_steps == b2_expectedSteps(old(functionOptions.imageExcludeImports), true, false) || ghost.b2_steps == b2_expectedSteps(old(functionOptions.imageExcludeImports), true, true)
+//@   ensures imports-dropped-when-asked: err == nil && old(functionOptions.imageExcludeImports) && ghost.b2_steps == 1 ==> r != nil && typeOf(r) == typeId(*bufimage.image) && (forall k int :: 0 <= k && k < len(cast(*bufimage.image, r).files) ==> !cast(*bufimage.image, r).files[k].IsImport()) && (forall j int :: 0 <= j && j < len(image.Files()) && !image.Files()[j].IsImport() ==> (exists k int :: 0 <= k && k < len(cast(*bufimage.image, r).files) && cast(*bufimage.image, r).files[k] == image.Files()[j]))
+//@   assert before "newImage = bufimage.ImageWithoutImports(newImage)" imports-first: ghost.b2_steps == 0 && newImage == image
+//@   assert before "newImage, err = bufimageutil.FilterImage(" types-second: ghost.b2_steps == 0 || ghost.b2_steps == 1
+//@   assert before "newImage, err = bufimage.ImageWithOnlyPathsAllowNotExist(" paths-only-when-asked: !imageCameFromAWorkspace && (len(functionOptions.targetPaths) > 0 || len(functionOptions.targetExcludePaths) > 0)
+//@   ensures failure-has-no-image: err != nil ==> r == nil
+//@   assert before "newImage, err = bufimage.ImageWithOnlyPathsAllowNotExist(" paths-normalized: len(normalizedTargetPaths) == len(functionOptions.targetPaths) && (forall i int :: 0 <= i && i < len(normalizedTargetPaths) ==> normalizedTargetPaths[i] == normalpath.Normalize(functionOptions.targetPaths[i]))
+//@   assert before "newImage, err = bufimage.ImageWithOnlyPathsAllowNotExist(" exclude-paths-normalized: len(normalizedExcludePaths) == len(functionOptions.targetExcludePaths) && (forall i int :: 0 <= i && i < len(normalizedExcludePaths) ==> normalizedExcludePaths[i] == normalpath.Normalize(functionOptions.targetExcludePaths[i]))
+//@   loop 0 invariant targets-so-far: len(normalizedTargetPaths) == $i && (forall i int :: 0 <= i && i < $i ==> normalizedTargetPaths[i] == normalpath.Normalize(functionOptions.targetPaths[i]))
+//@   loop 1 invariant excludes-so-far: len(normalizedExcludePaths) == $i && (forall i int :: 0 <= i && i < $i ==> normalizedExcludePaths[i] == normalpath.Normalize(functionOptions.targetExcludePaths[i]))
+//@   canary ensures err == nil
+//
+// ---- writing an image ----
+// PutImage (buf build -o): the message ref is parsed by the MESSAGE ref parser (default binpb); /dev/null writes nothing;
+// otherwise the image goes through filterImage (above), is converted to a FileDescriptorSet exactly when
+// --as-file-descriptor-set was given (else to the image message), is marshalled ONCE with the encoder of the ref's
+// encoding (newProtoencodingMarshaler: the image's resolver), and exactly the marshalled bytes are written to the
+// writer of that same ref (compression is the writer's, by the ref: buffetch/internal putFileWriteCloser).
+// `skip`: the deferred handleFileAnnotationSetRetError(&retErr) is abstracted (its verified C20 contract: a nil error
+// stays nil, a non-nil error stays non-nil; its precondition speaks about C20 ghost state).
+//@ func (c *controller) PutImage(ctx, imageOutput, image, options) (retErr)
+//@   property C11
+//@   modifies heap, ghost.fail, ghost.wfail, ghost.s_unknown, ghost.b2_reparsedWith, ghost.b2_codecResolver, ghost.b2_steps, ghost.b2_marN, ghost.b2_marRecv, ghost.b2_marMsg, ghost.b2_marData, ghost.b2_marResolver, ghost.b2_putRef, ghost.annotPrinted, ghost.b2_fdsAsked, ghost.b2_putKind
+//@   skip "defer c.handleFileAnnotationSetRetError(&retErr)"
+//@   ghost before "var putMessage proto.Message" b2_fdsAsked := functionOptions.imageAsFileDescriptorSet
+//@   ghost before "var putMessage proto.Message" b2_putKind := 0
+//@   ghost after "putMessage = bufimage.ImageToFileDescriptorSet(putImage)" b2_putKind := 1
+//@   ghost after "putMessage, err = bufimage.ImageToProtoImage(putImage)" b2_putKind := 2
+//@   ensures marshalled-at-most-once: ghost.b2_marN <= old(ghost.b2_marN) + 1
+//@   ensures success-marshals-once-or-null: retErr == nil ==> ghost.b2_marN == old(ghost.b2_marN) + 1 || ghost.b2_marN == old(ghost.b2_marN)
+//@   assert before "marshaler, err := newProtoencodingMarshaler(image, messageRef)" null-ref-writes-nothing: !messageRef.IsNull() && ghost.b2_marN == old(ghost.b2_marN)
+//@   assert before "data, err := marshaler.Marshal(putMessage)" encoder-of-the-refs-encoding: (messageRef.MessageEncoding() == buffetch.MessageEncodingBinpb ==> b2_marshalerEnc(marshaler) == 1) && (messageRef.MessageEncoding() == buffetch.MessageEncodingJSON ==> b2_marshalerEnc(marshaler) == 2) && (messageRef.MessageEncoding() == buffetch.MessageEncodingTxtpb ==> b2_marshalerEnc(marshaler) == 3) && (messageRef.MessageEncoding() == buffetch.MessageEncodingYAML ==> b2_marshalerEnc(marshaler) == 4)
+//@   assert before "data, err := marshaler.Marshal(putMessage)" descriptor-set-exactly-when-asked: (ghost.b2_fdsAsked ==> ghost.b2_putKind == 1) && (!ghost.b2_fdsAsked ==> ghost.b2_putKind == 2)
+//@   assert before "writeCloser, err := c.buffetchWriter.PutMessageFile(ctx, c.container, messageRef)" marshalled-once-with-that-encoder: ghost.b2_marN == old(ghost.b2_marN) + 1 && ghost.b2_marRecv == marshaler && ghost.b2_marMsg == putMessage && ghost.b2_marData == data
+//@   assert before "_, err = writeCloser.Write(data)" written-bytes-are-the-marshalled-bytes: ghost.b2_marData == data && ghost.b2_marN == old(ghost.b2_marN) + 1
